@@ -47,6 +47,7 @@ func createASTTypeExpr(pkg string, t types.Type, varPool *VarPool, imports map[s
 					IsDefaultName: newPkgName == pkgName,
 					IsUsed:        false, // Will be marked during code generation
 				}
+				pkgName = newPkgName
 			}
 
 			return instantiateTypeExpr(pkg, &ast.SelectorExpr{
@@ -74,6 +75,7 @@ func createASTTypeExpr(pkg string, t types.Type, varPool *VarPool, imports map[s
 					IsDefaultName: newPkgName == pkgName,
 					IsUsed:        false, // Will be marked during code generation
 				}
+				pkgName = newPkgName
 			}
 
 			return instantiateTypeExpr(pkg, &ast.SelectorExpr{
